@@ -1,5 +1,6 @@
 import NasdaqModel.Driver.Sexp
 import NasdaqModel.Model.Heap
+import NasdaqModel.Model.HeapD
 /-
 Line protocol of the C18 heap model.
 
@@ -215,12 +216,68 @@ def opSx : Op → Sexp
 def witnessText : String :=
   (schemaSx witnessSchema).toStr ++ " " ++ (Sexp.list (witnessOps.map opSx)).toStr
 
+/-! ### `heapd.run`: the same with DECLARED defaults (Model/HeapD.lean)
+
+  heapd.run <schema> (<op>*)  →  (<result>*)       same result syntax; the classSafe column is always 1
+  fty ::= … | (arr <ety> (w s b) <tree>)      declared default of an array field (a list tree)
+          | (recd c <tree>)                   declared default of a record-typed field: parsed and dropped, the library ignores it
+-/
+
+def ftyOfD : Sexp → Option (FTy × Option Tree)
+  | .list [.atom "arr", e, .list c, d] => do some (.arr (← etyOf e) (← intTy c), some (← treeOf d))
+  | .list [.atom "recd", c, _d] => do some (.recd (← asNat c), Option.none)
+  | f => do some (← ftyOf f, Option.none)
+
+def classOfD (ci : Nat) : Sexp → Option (ClassDef × List ((Nat × Key) × Tree))
+  | .list (.atom "rec" :: m :: fs) => do
+    let fds ← fs.mapM ftyOfD
+    let mid ← (match m with
+      | .atom "-" => some Option.none
+      | m => do some (some (← asNat m)))
+    let tbl := (enumFrom 0 fds).filterMap (fun p => p.2.2.map (fun t => ((ci, p.1), t)))
+    some (.binRec mid (fds.map (·.1)), tbl)
+  | c => do some (← classOf c, [])
+
+def schemaOfD : Sexp → Option (Schema × HeapD.Defaults)
+  | .list (.atom "schema" :: .atom mode :: cs) => do
+    let fresh ← (if mode == "fresh" then some true else if mode == "shared" then some false else none)
+    let cds ← (enumFrom 0 cs).mapM (fun p => classOfD p.1 p.2)
+    some (⟨fresh, cds.map (·.1)⟩, ⟨cds.flatMap (·.2)⟩)
+  | _ => none
+
+def instSxD (S : Schema) (D : HeapD.Defaults) (H : Heap) (i : Nat) : Sexp :=
+  match HeapD.viewD S D (obsDepth S) H i with
+  | some d => .list [.atom "v", dvalSx S d, encSx (HeapD.encodeInstD S D H i)]
+  | none => .atom "?"
+
+def readSxD (S : Schema) (D : HeapD.Defaults) (H : Heap) : Op → Sexp
+  | .read a p =>
+    match HeapD.targetD S D H a p with
+    | .ok (.heap v) => dvalSx S (HeapD.patch S D (obsDepth S) (deref S (obsDepth S) H.cells v))
+    | .ok (.tmp t) => dvalSx S (HeapD.treeD S D (obsDepth S) t)
+    | .error _ => .atom "-"
+  | _ => .atom "-"
+
+def runOpsD (S : Schema) (D : HeapD.Defaults) : Heap → List Op → List Sexp
+  | _, [] => []
+  | H, op :: ops =>
+    let rd := readSxD S D H op
+    let (status, H') := match HeapD.stepD S D H op with
+      | .ok H' => ("ok", H')
+      | .error e => (e.name, H)
+    let views := (List.range H'.insts.length).map (instSxD S D H')
+    .list (.atom status :: .atom "1" :: rd :: views) :: runOpsD S D H' ops
+
 def handle (op : String) (args : List Sexp) : Option String :=
   match op, args with
   | "heap.run", [s, .list ops] => do
     let S ← schemaOf s
     let ops ← ops.mapM opOf
     some (Sexp.list (runOps S Heap.init ops)).toStr
+  | "heapd.run", [s, .list ops] => do
+    let SD ← schemaOfD s
+    let ops ← ops.mapM opOf
+    some (Sexp.list (runOpsD SD.1 SD.2 Heap.init ops)).toStr
   | "heap.witness", [] => some witnessText
   | _, _ => none
 
